@@ -68,7 +68,12 @@ async fn lib_compress_one(args: &[String]) {
     let input = ScriptedSource::new(src, vec![Rd::Bytes(3), Rd::Pending], default_read);
     let mut out: Vec<u8> = Vec::new();
     create_archive(input, &mut out, &opts).await.expect("create_archive");
-    std::fs::write(&args[1], out).unwrap();
+    if args[1] == "-" {
+        use std::io::Write;
+        std::io::stdout().write_all(&out).unwrap();
+    } else {
+        std::fs::write(&args[1], out).unwrap();
+    }
 }
 
 /// codec <in: one hex chunk per line> <out: one hex compressed chunk per line> <brotli level>
